@@ -178,7 +178,7 @@ func checkC02(e *Env) {
 		}
 	})
 	// the concurrent flavour of this monitor (C12 is the full treatment)
-	concCalls := e.concurrentSmoke(drv, "C02", e.smokePool("C02", "chk"), e.pick(2, 12), e.pick(300, 1500), e.smokeValidAccepted())
+	concCalls := e.concurrentSmoke(drv, "C02", e.smokePool("C02", "chk"), e.pick(8, 32), e.pick(300, 1500), e.smokeValidAccepted())
 
 	// identity is not equality: a rejected sentence becomes garbage, is collected, and a VALID
 	// sentence of the same byte length is allocated at the very same address (the child retries
